@@ -1,6 +1,8 @@
 """C12 — Gaussian-family likelihoods add exactly the specified noise (once) and integrate exactly.
 
-Tie: correspondence.  Real likelihood objects from $VERIF_REPO are called on random function
+Tie: translator G7 (harness/translate/g7_noise_models.py -> lean/GPVerif/Gen/NoiseModels.lean: decision structure and
+closed-form expressions regenerated from the source on every run; `gen_*` theorems of Props/C12.lean prove them equal
+to the specification; the driver executes the generated definitions) AND correspondence.  Real likelihood objects from $VERIF_REPO are called on random function
 distributions; the noise operator R that the property specifies is computed exactly (in Q) by the Lean
 model `GPVerif.Model.Noise` through `drivers/C12.lean` from the *actual* float64 parameter values, and
 
@@ -23,14 +25,15 @@ from lib import common as C
 
 ID = "C12"
 PROP_MODULES = ["GPVerif.Props.C12"]
-BUILD_TARGETS = ["GPVerif.Props.C12", "GPVerif.Model.Noise", "GPVerif.Model.Proto"]
+BUILD_TARGETS = ["GPVerif.Props.C12", "GPVerif.Gen.NoiseModels", "GPVerif.Model.Noise", "GPVerif.Model.Proto"]
 RULE = ("structured grid over likelihood kind {Gaussian, FixedNoise, FixedNoise+learned} x call-time noise "
         "{none, same batch, own batch, stored-size mismatch} x batch shapes of likelihood / stored noise / "
         "distribution, and multitask {rank 0..t} x {global, task} switches x {interleaved, not} x batch shapes, "
         "plus LikelihoodList of 1..3 members with/without per-member noise and with length mismatches; sizes and "
         "all parameter values random per case. distinct = distinct (cell, seed); non-trivial = the noise operator "
         "is non-zero and the function covariance is a dense random SPD matrix")
-TRUSTED = ["pure-Python mirror of the driver protocol (harness/props/c12.py: py_step) — cross-checked against "
+TRUSTED = ["translator harness/translate/g7_noise_models.py (Python ast -> Lean decision / expression IR)",
+           "pure-Python mirror of the driver protocol (harness/props/c12.py: py_step) — cross-checked against "
            "the Lean driver on every request line",
            "modelled not verified: torch broadcasting of batch shapes (the harness selects the parameter of "
            "each batch element with its own index arithmetic), linear_operator's to_dense / diagonal"]
@@ -39,6 +42,33 @@ ASSUMPTIONS = ["float64 only; noise >= 0.05 so that log_marginal's clamp_min(1e-
                "rejected loudly by the implementation (torch expand error) — counted, not a violation",
                "expected_log_prob / log_marginal of multitask likelihoods: elementwise closed form with the "
                "diagonal of the task-noise block, summed over the task dimension (as the code documents)"]
+
+GEN = None   # set in generate()
+
+
+def generate(ctx):
+    """Translator G7: regenerate Gen/NoiseModels.lean from $VERIF_REPO's working tree (branch order of the noise models,
+    kwargs forwarded to the learned noise, Kronecker operand order, zip routing, closed-form expressions).  The
+    theorems `gen_*` of Props/C12.lean are then re-checked against the regenerated definitions, and the driver runs them."""
+    import os
+    import sys
+    sys.path.insert(0, os.path.join(C.VERIF, "harness"))
+    from translate import g7_noise_models
+    out = os.path.join(C.LEAN_DIR, "GPVerif", "Gen", "NoiseModels.lean")
+    try:
+        facts, changed = g7_noise_models.generate(C.REPO, out)
+    except Exception:
+        # broken tie: put the committed baseline back (and rebuild it) so that the driver used by the failing-input
+        # search runs the specification-equal definitions, not a stale file from some other tree
+        base = os.path.join(C.VERIF, "harness", "translate", "baselines", "NoiseModels.lean")
+        if os.path.exists(base) and (not os.path.exists(out) or open(out).read() != open(base).read()):
+            with open(out, "w") as fh:
+                fh.write(open(base).read())
+        C.lake_build(["GPVerif.Gen.NoiseModels"])
+        raise
+    ctx.notes["gen_changed"] = changed
+    ctx.notes["gen_facts"] = facts
+
 
 EPS = 2.0 ** -52
 LOG2PI = math.log(2 * math.pi)
@@ -141,7 +171,7 @@ def py_step(line):
         val = -(0.5 * (((fy - fm) * (fy - fm)) / (fv + fr) + math.log(fv + fr) + LOG2PI))
         return f"{C.rat_str(q)} {C.rat_str(v + r)} {_bits(val)}"
     if op == "route":
-        nl, na, nn = int(ts[0]), int(ts[1]), int(ts[2])
+        nl, na, nn = int(ts[1]), int(ts[2]), int(ts[3])
         if nl != na or (nn >= 0 and na != nn):
             return "none"
         return " ".join(f"{k}:{k}:{k if nn >= 0 else 'N'}" for k in range(nl))
@@ -180,9 +210,10 @@ class Oracle:
             return py
         rep = C.run_driver("C12", lines)
         bad = 0
-        for l, a, b in zip(lines, rep, py):
+        for k, (l, a, b) in enumerate(zip(lines, rep, py)):
             if not _same_reply(a, b):
                 bad += 1
+                rep[k] = b    # the mirror is the specification: the implementation is judged against it
                 if bad <= 3:
                     self.ctx.broke("correspondence", "driver-vs-python-mirror:" + l.split()[0],
                                    f"request `{l[:200]}`\nlean:   {a[:200]}\npython: {b[:200]}")
@@ -628,7 +659,7 @@ def run_list(cfg):
             out = ll(*args, **kw) if cfg["method"] == "call" else ll.forward(*args, **kw)
         except Exception as e:
             err = e
-    case.l1 = [f"route {nl} {na} {nn}"]
+    case.l1 = [f"route {cfg['method']} {nl} {na} {nn}"]
     obs, offs = [], []
     for m, P in zip(members, Ps):
         Pk = dict(P)
@@ -1078,6 +1109,11 @@ def search(ctx, broken):
 
 
 def replay(ctx, payload):
+    try:    # the driver must run the definitions of the tree being replayed, not a stale generated file
+        generate(ctx)
+        C.lake_build(["GPVerif.Gen.NoiseModels"])
+    except Exception:
+        pass
     cfg = payload["case"]
     try:
         oracle = Oracle(ctx, True)
